@@ -13,7 +13,7 @@ from ..facts import AnalysisBroken, walk, REPO
 from .. import facts
 from .automata_common import load_core
 from .state_record import check_state_for_iface
-from .frame_common import FrameSetup, run_regions, sends, effects
+from .frame_common import FrameSetup, run_regions, sends, effects, BLOCK_UNIT
 
 LOCKS = {'pthread_mutex_lock', 'pthread_spin_lock', 'pthread_rwlock_wrlock', 'pthread_rwlock_rdlock', 'lltd_port_lock', 'lltd_port_mutex_lock',
          '__atomic_load_n', '__atomic_store_n', '__atomic_compare_exchange_n', 'atomic_load', 'atomic_store'}
@@ -50,6 +50,7 @@ def run(tier):
     fnf = 'lltdResponder/lltdBlock.c'
     rep.rule('R17.1', 'mutable storage with static duration in the core is exactly the per-interface state list', floor=1)
     rep.rule('R17.2', 'the record is selected by pointer equality on the context; every port effect of parseFrame carries the caller\'s context', floor=50)
+    rep.rule('R17.4', 'handling a frame never rewrites the link or the key of the interface record (the list of records stays intact)', floor=50)
     rep.rule('R17.3', 'functions reachable from a thread start routine access shared mutable core storage only under a lock', floor=1)
     prog = load_core('systemd')
     from .frame_common import iface_list_name
@@ -84,6 +85,24 @@ def run(tier):
                 neff += 1
                 rep.check(st.canon(sn.d['ctx']) == ctx, 'R17.2', 'send-ctx|%s' % sn.d['fn'], '%s transmits on context %s, not the one the frame arrived on' % (sn.d['fn'], sn.d['ctx']),
                           function=sn.d['fn'], file=fnf)
+    # the list of records stays intact: no path of the frame handler rewrites a record's link to the other interfaces' records
+    # or the context it is keyed by (a record wiped as a whole takes every record behind it off the list)
+    from .dispatch import Summary
+    from .frame_common import record_field
+    keyf = [record_field(fs.srec, r)[0] for r in ('next', 'iface_ctx')]
+    nlink = 0
+    for region, outs in sorted(res.items()):
+        for st, ret in outs:
+            if st.objs.get('st') is None:
+                continue
+            nlink += 1
+            touched = [f for f in Summary(fs, region, st, ret).changed_fields(()) if f in keyf]
+            rep.check(not touched, 'R17.4', 'record-link|%s' % region,
+                      'a path of the frame handler (cell %s) rewrites %s of the interface record: the records of other interfaces linked behind it are cut off the list '
+                      '(their state is lost, their next frame starts from a blank record) or the record changes owner' % (region, ' and '.join(touched)),
+                      function='parseFrame', file=fnf)
+    if nlink == 0:
+        rep.broke('no final state of parseFrame carries the interface record')
     # uses of the global: only inside the lookup function
     for ix in prog.index.values():
         # the lookup "module": lltd_state_for_iface and the static helpers all of whose callers belong to it
@@ -103,13 +122,19 @@ def run(tier):
                 if fname not in module and fn.get('storageClass') == 'static' and callers.get(fname) and callers[fname] <= module:
                     module.add(fname)
                     grew = True
+        on_frame_path = set(reachable(prog, prog.unit(BLOCK_UNIT), 'parseFrame'))
         for fname, fn in ix.functions.items():
             if not is_core(fn):
                 continue
             for n in walk(fn):
                 if n.get('kind') == 'DeclRefExpr' and n.get('referencedDecl', {}).get('name') == LIST:
-                    rep.check(fname in module, 'R17.2', 'global-use|%s' % fname,
-                              'the interface list is accessed in %s, outside the context-keyed lookup' % fname, node=n, function=fname)
+                    # besides the lookup module, a pure observer is harmless: a function that is not reachable from the frame
+                    # handler (it cannot influence what is sent) and only reads the list and the records (statistics accessor)
+                    observer = fname not in on_frame_path and read_only_walker(fn, LIST)
+                    rep.check(fname in module or observer, 'R17.2', 'global-use|%s' % fname,
+                              'the interface list is accessed in %s, outside the context-keyed lookup%s' % (
+                                  fname, ' (reachable from the frame handler)' if fname in on_frame_path else ' (and it writes the list or a record)'),
+                              node=n, function=fname)
     # ---- R17.3 lockset over the daemons that parse here
     daemons = [('systemd', 'os/linux/daemon/linux-main.c'), ('embedded', 'os/linux/daemon/linux-embedded-main.c')]
     analysed = []
@@ -188,6 +213,53 @@ def run(tier):
                   'unsynchronised access in lltd_state_for_iface is a recorded known finding. Memory-model subtleties beyond unsynchronised conflicting accesses and daemons that do not '
                   'parse here are not decided.',
                   'static inventory + origin check of port effects + lockset over the resolved call graph', exhaustive=False)
+
+
+def read_only_walker(fn, LIST):
+    """fn never stores into the list head or through a pointer to an interface record, and hands no writable record pointer on."""
+    def strip(e):
+        while e.get('kind') in ('ImplicitCastExpr', 'ParenExpr', 'CStyleCastExpr') and e.get('inner'):
+            e = e['inner'][-1]
+        return e
+
+    def is_rec_ptr(qt):
+        q = ' '.join((qt or '').replace('struct ', '').split())
+        return q.replace('const ', '').replace(' const', '').strip() in ('lltd_iface_state *', 'lltd_iface_state **')
+
+    def writes_record(lhs):
+        lhs = strip(lhs)
+        k = lhs.get('kind')
+        if k == 'DeclRefExpr':
+            return lhs.get('referencedDecl', {}).get('name') == LIST
+        if k == 'MemberExpr':
+            base = strip(lhs['inner'][0])
+            bt = (base.get('type') or {}).get('qualType', '')
+            if 'lltd_iface_state' in bt:
+                return True
+            return writes_record(base) if base.get('kind') in ('MemberExpr', 'ArraySubscriptExpr', 'UnaryOperator') else False
+        if k == 'UnaryOperator' and lhs.get('opcode') == '*':
+            return 'lltd_iface_state' in ((strip(lhs['inner'][0]).get('type') or {}).get('qualType', ''))
+        if k == 'ArraySubscriptExpr':
+            return writes_record(lhs['inner'][0])
+        return False
+    for n in walk(fn):
+        k = n.get('kind')
+        if k in ('BinaryOperator', 'CompoundAssignOperator') and n.get('opcode', '').endswith('=') and n.get('opcode') not in ('==', '!=', '<=', '>='):
+            if writes_record(n['inner'][0]):
+                return False
+        if k == 'UnaryOperator' and n.get('opcode') in ('++', '--') and writes_record(n['inner'][0]):
+            return False
+        if k == 'UnaryOperator' and n.get('opcode') == '&':
+            t = strip(n['inner'][0])
+            if t.get('kind') == 'DeclRefExpr' and t.get('referencedDecl', {}).get('name') == LIST:
+                return False
+        if k == 'CallExpr':
+            for a in n['inner'][1:]:
+                qt = (strip(a).get('type') or {}).get('qualType', '')
+                at = (a.get('type') or {}).get('qualType', '')
+                if is_rec_ptr(qt) and 'const' not in at and 'const' not in qt:
+                    return False
+    return True
 
 
 def callee(n):
